@@ -19,7 +19,7 @@ MSG = {"gcase_eq": "a returned vector does not satisfy G(t) v = lambda G(t0) v",
        "gcase_parallel": "solutions that must agree up to sign and normalisation (eigh / cholesky, plain / observable vectors) are not parallel",
        "gcase_dual": "a state's vector is not the dual vector of that state of the exact spectrum (wrong state labelling / not followed consistently over time)",
        "gcase_exp": "a projected eigenvalue / pruned correlator differs from exp(-E_n (t - t0))",
-       "gcase_close": "an extracted energy differs from the exact one"}
+       "gcase_close": "an off-diagonal element of the pruned matrix does not vanish / an eigenvalue or extracted energy differs from the exact one"}
 
 
 def vec_t(v):
@@ -65,6 +65,8 @@ def run(ctx):
         G = [(Z * np.exp(-Ef * t)) @ Z.T for t in range(T)]
         G = [0.5 * (g + g.T) for g in G]
         nonsym = rng.choice(["symmetric", "noise", "antisymmetric"])
+        if i in (1, 2):                      # stratification: every run prunes a matrix with an antisymmetric part
+            nonsym = "antisymmetric"
         ncfg = 30
         content = []
         for t in range(T):
@@ -86,7 +88,7 @@ def run(ctx):
                         m[a, b] = o + sh
                         m[b, a] = o - sh
             content.append(m)
-        holes = sorted(rng.sample(range(t0 + 1, T), min(2, T - t0 - 2))) if rng.random() < 0.4 and T - t0 > 4 else []
+        holes = sorted(rng.sample(range(t0 + 1, T), min(2, T - t0 - 2))) if rng.random() < 0.4 and T - t0 > 4 and i not in (1, 2) else []
         content_h = [None if t in holes else content[t] for t in range(T)]
         eqs, orders, par, dual, exps, close = [], [], [], [], [], []
         zs = [list(Z[:, n]) for n in range(N)]
@@ -139,6 +141,8 @@ def run(ctx):
                 # prune to the lowest states
                 if N >= 3 and not holes and T > t0 + 3:
                     Ntr = rng.randint(1, N - 1) if N > 2 else 1
+                    if i in (1, 2):
+                        Ntr = 2
                     t0p = t0
                     tp = t0 + 1
                     if Ntr >= 2:
